@@ -56,7 +56,7 @@ Done == stack = <<>>
 \* variants per class; chosen by position so that every variant meets every neighbour somewhere
 NameV == << <<97>>, <<101,49>>, <<95,120>>, <<200,98>>, <<65>>, <<200,116,111,112>> >>       \* a e1 _x \xc8b A \xc8top
 LabelV == << <<58,58,108,58,58>>, <<58,58,200,116,111,112,58,58>>, <<58,58,101,49,58,58>> >>   \* ::l:: ::\xc8top:: ::e1::
-NumV == << <<49>>, <<49,46>>, <<46,53>>, <<48,120,49,102>>, <<50,101,51>>, <<48,98,49,46,49>> >>
+NumV == << <<49>>, <<49,46>>, <<46,53>>, <<48,120,49,102>>, <<50,101,51>>, <<48,98,49,46,49>>, <<48,120,46,56,102>> >>      \* 1 1. .5 0x1f 2e3 0b1.1 0x.8f
 StrV == << <<34,115,34>>, <<39,116,39>>, <<91,91,117,93,93>>, <<91,61,91,118,93,61,93>>, <<34,97,92,110,98,34>>, <<39,92,39,39>> >>      \* "s" 't' [[u]] [=[v]=] "a\nb" '\''
 BinV == <<"+", "-", "..", "<", ">>>", "and", "==", "\\", "^^", "/", "%", "<=", "~=", "!=", "*", "^", "&", "|", "<<", ">>", "<<>", ">><", "or", ">", ">=">>
 UnV == <<"-", "not", "#", "~", "@", "%", "$">>
